@@ -7,6 +7,7 @@ package main
 import (
 	"fmt"
 	"go/types"
+	"reflect"
 	"strings"
 
 	"golang.org/x/tools/go/ssa"
@@ -152,6 +153,83 @@ func (e *Exec) mkSyntaxError(off *Term) Value {
 	return Iface{t: types.NewPointer(st), v: Ptr{obj: obj}}
 }
 
+// decodeInto: what a struct target holds after decoding a dictionary into it. As in the real decoder
+// only the keys present in the dictionary are assigned: a field tagged omitempty whose decoded value
+// is empty was not in the dictionary (the encoder that produced the snapshot left it out) and keeps
+// whatever the target held before. Targets are fresh zero values everywhere in the unchanged code, so
+// this only matters for code that reuses a decoded-into struct. Nested structs are replaced whole.
+func (e *Exec) decodeInto(old, nu Value, t types.Type) Value {
+	st, ok := t.Underlying().(*types.Struct)
+	oa, ok1 := old.(*Agg)
+	na, ok2 := nu.(*Agg)
+	if !ok || !ok1 || !ok2 || len(oa.elems) != len(na.elems) || st.NumFields() != len(na.elems) {
+		return nu
+	}
+	for i := 0; i < st.NumFields(); i++ {
+		tag := reflect.StructTag(st.Tag(i)).Get("bencode")
+		if !strings.Contains(tag, ",omitempty") {
+			continue
+		}
+		switch v := na.elems[i].(type) {
+		case Str:
+			if v.Len() == 0 {
+				na.elems[i] = oa.elems[i]
+			}
+		case Ptr:
+			if v.IsNil() {
+				na.elems[i] = oa.elems[i]
+			}
+		case Slice:
+			if v.IsNil() || v.len == 0 {
+				na.elems[i] = oa.elems[i]
+			}
+		case *Term:
+			if ot, isT := oa.elems[i].(*Term); isT && v.sort == BoolSort {
+				na.elems[i] = e.tt.Or(v, ot) // present iff true
+			} else if v.IsConst() && v.c == 0 {
+				na.elems[i] = oa.elems[i]
+			}
+		case *Agg:
+			// a struct-valued field (krpc.Msg.IP): left out when it is the zero value; decided only
+			// for concrete contents
+			if e.aggIsZero(v) {
+				na.elems[i] = oa.elems[i]
+			}
+		}
+	}
+	return na
+}
+
+func (e *Exec) aggIsZero(a *Agg) bool {
+	for _, x := range a.elems {
+		switch v := x.(type) {
+		case *Term:
+			if !v.IsConst() || v.c != 0 {
+				return false
+			}
+		case Slice:
+			if !v.IsNil() && v.len != 0 {
+				return false
+			}
+		case Str:
+			if v.Len() != 0 {
+				return false
+			}
+		case Ptr:
+			if !v.IsNil() {
+				return false
+			}
+		case *Agg:
+			if !e.aggIsZero(v) {
+				return false
+			}
+		default:
+			return false
+		}
+	}
+	return true
+}
+
 // bencodeUnmarshal implements bencode.Unmarshal(data, target).
 func (e *Exec) bencodeUnmarshal(data Slice, target Value) Value {
 	ti, ok := target.(Iface)
@@ -176,7 +254,7 @@ func (e *Exec) bencodeUnmarshal(data Slice, target Value) Value {
 		}
 		switch {
 		case types.Identical(pt.Elem(), obj.snapType):
-			e.store(dst, e.deepCopy(obj.snapshot, copyMemo{}))
+			e.store(dst, e.decodeInto(e.load(dst), e.deepCopy(obj.snapshot, copyMemo{}), obj.snapType))
 		case types.IsInterface(pt.Elem()) && pt.Elem().Underlying().(*types.Interface).NumMethods() == 0:
 			e.store(dst, Iface{t: obj.snapType, v: e.deepCopy(obj.snapshot, copyMemo{})})
 		default:
